@@ -65,6 +65,13 @@ MUT = {
  "des_target_id": ("desugar", "desugar/_desugar_expression.py",
     "    all_indexes = set(assignment.index_participants().keys())\n    contract_indexes = all_indexes - set(assignment.target.indexes)",
     "    all_indexes = set(assignment.expression.index_participants().keys())\n    contract_indexes = all_indexes"),
+ "ip_off_by_one": ("index_participants", "expression/ast.py",
+    "participants.get(index_name, set()) | {(self.name, i)}", "participants.get(index_name, set()) | {(self.name, i + 1)}"),
+ "ip_merge_left_only": ("index_participants", "expression/ast.py",
+    "index_name: left_indexes.get(index_name, set()) | right_indexes.get(index_name, set())",
+    "index_name: left_indexes.get(index_name, set())"),
+ "ip_merge_keys_left": ("index_participants", "expression/ast.py",
+    "for index_name in {*left_indexes.keys(), *right_indexes.keys()}", "for index_name in {*left_indexes.keys()}"),
  # constructs the translator does not know: regeneration must FAIL CLOSED
  "fc_exh_is_other": ("exhaust", "iteration_graph/identifiable_expression/_exhaust_tensor.py",
     "    if left_exhausted is self.left and right_exhausted is self.right:\n        # Short circuit when there are no changes\n        return self\n    elif left_exhausted == Integer(0) or",
@@ -134,7 +141,15 @@ def harmless_variables(src):
          "            if key not in merged:\n                merged[key] = tensors\n"
          "            else:\n                merged[key] = merged[key] + tensors\n        return merged")
     return src[:j] + b + src[j + len(a):]
+def harmless_ip(src):
+    a = ("    left_indexes = left.index_participants()\n    right_indexes = right.index_participants()\n")
+    assert src.count(a) == 1
+    src = src.replace(a, "    right_indexes = right.index_participants()\n    left_indexes = left.index_participants()\n")
+    b = "        participants = {}\n        for i, index_name in enumerate(self.indexes):\n            participants[index_name] = participants.get(index_name, set()) | {(self.name, i)}\n        return participants"
+    assert src.count(b) == 1
+    return src.replace(b, "        result = {}\n        for position, key in enumerate(self.indexes):\n            previous = result.get(key, set())\n            result[key] = previous | {(self.name, position)}\n        return result")
 HARMLESS = {
+ "ok_ip_rename": ("index_participants", "expression/ast.py", harmless_ip),
  "var_mul_order": ("variables", "expression/ast.py", mutate_variables),
  "ok_var_rewrite": ("variables", "expression/ast.py", harmless_variables),
  "ok_des_reorder": ("desugar", "desugar/_desugar_expression.py", harmless_desugar),
